@@ -4,6 +4,7 @@ import (
 	"bufio"
 	"fmt"
 	"os"
+	"path/filepath"
 	"regexp"
 	"sort"
 	"strings"
@@ -41,8 +42,35 @@ func (o *observation) sortedKeys() []string {
 	return k
 }
 
+// srcSnapshot: the library sources as they were when the harness started (the binary was built from them
+// seconds before); a repair committed to the tree during a long run must not shift the lines under the reports
+var srcSnapshot = map[string][]string{}
+
+func snapshotSources(root string) {
+	filepath.Walk(root, func(path string, info os.FileInfo, err error) error {
+		if err != nil {
+			return nil
+		}
+		if info.IsDir() {
+			if n := info.Name(); n == ".git" || n == "examples" {
+				return filepath.SkipDir
+			}
+			return nil
+		}
+		if strings.HasSuffix(path, ".go") && !strings.HasSuffix(path, "_test.go") {
+			if b, err := os.ReadFile(path); err == nil {
+				srcSnapshot[path] = strings.Split(string(b), "\n")
+			}
+		}
+		return nil
+	})
+}
+
 func (o *observation) line(file string, n int) string {
-	l, ok := o.src[file]
+	l, ok := srcSnapshot[file]
+	if !ok {
+		l, ok = o.src[file]
+	}
 	if !ok {
 		f, err := os.Open(file)
 		if err == nil {
